@@ -61,7 +61,7 @@ class MessageBase(ctypes.Structure, metaclass=MessageMeta):
         """
         max_len = 20
         pstr = "\t" * add_tabs + f"{type(self).__name__}:"
-        for field_name, field_type, *_ in self._fields_:
+        for field_name, field_type, *_ in _all_fields(self):
             if field_name[0] == "_":
                 field_name = field_name[1:]
             val = getattr(self, field_name)
@@ -267,6 +267,15 @@ class RTMAJSONEncoder(json.JSONEncoder):
         return super().default(o)
 
 
+def _all_fields(obj: MessageBase) -> List:
+    """ctypes fields of a structure including the ones inherited from its base
+    structures (a subclass' _fields_ only lists the fields it adds itself)"""
+    fields: List = []
+    for klass in reversed(type(obj).__mro__):
+        fields.extend(klass.__dict__.get("_fields_", ()))
+    return fields
+
+
 def _from_dict(obj: MessageBase, data: Dict[str, Any]):
     """Helper function to set message fields from dictionary values
 
@@ -274,7 +283,7 @@ def _from_dict(obj: MessageBase, data: Dict[str, Any]):
         obj (MessageBase): Message object
         data (Dict[str, Any]): Message data dictionary
     """
-    for _name, ftype, *_ in obj._fields_:
+    for _name, ftype, *_ in _all_fields(obj):
         name = _name[1:] if _name[0] == "_" else _name
         if issubclass(ftype, MessageBase):
             _from_dict(getattr(obj, name), data[name])
@@ -314,7 +323,7 @@ def _to_dict(obj: MessageBase) -> Dict[str, Any]:
         Dict[str, Any]: Dictionary
     """
     data: Dict[str, Any] = {}
-    for _name, ftype, *_ in obj._fields_:
+    for _name, ftype, *_ in _all_fields(obj):
         name = _name[1:] if _name[0] == "_" else _name
         if issubclass(ftype, MessageBase):
             data[name] = _to_dict(getattr(obj, name))
